@@ -27,8 +27,9 @@ ASSUMPTIONS = [
 REQUIRE = {
     "monitors": {"merge(split(d,b))==d": 100, "number of batches == ceil(n/b)": 100, "batch_call(f,d,b)==f(d)": 50, "batch_sum": 50,
                  "data_mask selects leaf[mask]": 50, "data_index returns addressed leaf": 50, "momenta file round trip": 10,
-                 "structured data file round trip": 10, "lazy == eager": 4},
-    "cover": {"empty_container": ["dict", "list", "tuple"]},
+                 "structured data file round trip": 10, "lazy == eager": 4, "lazy batches == eager": 40},
+    "cover": {"empty_container": ["dict", "list", "tuple"],
+              "lazy_variant": ["lazy_call", "lazy_call+lazy_file", "lazy_call+memory cache", "lazy_call+disk cache", "lazy_call+lazy_file+disk cache"]},
     "min_nontrivial": 100,
 }
 LEVEL_TEXT = ("Contract-style runtime monitors on the real tf_pwa.data helpers and the loader/saver paths over generated nested structures "
@@ -359,3 +360,131 @@ def run(ctx):
             ctx.violation("momenta file round trip", ctx.exc_witness(e, **desc()), mechanism="file round trip raises")
         if i < 2:
             ctx.sample({"section": "files", "dat_order": order, "n": n, "formats": ["dat", "npy", "npz", "save_data", "save_dataz"]})
+
+    # ------------------------------------------------------------ lazily evaluated samples through the loader (files, several groups)
+    from tf_pwa.config_loader import ConfigLoader
+
+    LAZY_VARIANTS = [
+        ("lazy_call", {"lazy_call": True}),
+        ("lazy_call+lazy_file", {"lazy_call": True, "lazy_file": True}),
+        ("lazy_call+memory cache", {"lazy_call": True, "cached_lazy_call": ""}),
+        ("lazy_call+disk cache", {"lazy_call": True, "cached_lazy_call": "DISK"}),
+        ("lazy_call+lazy_file+disk cache", {"lazy_call": True, "lazy_file": True, "cached_lazy_call": "DISK"}),
+    ]
+    n_l = ctx.pick(len(LAZY_VARIANTS) * 2, len(LAZY_VARIANTS) * 16)
+    for i, rng in ctx.cases("lazy", n_l, budget_s=ctx.pick(250, 1500)):
+        vname, vopts = LAZY_VARIANTS[i % len(LAZY_VARIANTS)]
+        rnd = i // len(LAZY_VARIANTS)
+        tag = "_c18Ls%di%d" % (ctx.seed, i)
+        try:
+            card = cards.CardGen(rng, tag, nbody=3, n_chains=(1, 2), final_j2=(0, 0, 2), res_j2_int=(0, 2), res_j2_half=(1,)).make()
+        except RuntimeError:
+            continue
+        names = [f["name"] for f in card["meta"]["finals"]]
+        wd = os.getcwd()
+        sizes = {"data": [int(rng.integers(6, 15)), int(rng.integers(4, 12))], "bg": [int(rng.integers(3, 9)), int(rng.integers(3, 9))]}
+        files, wfiles = {}, {}
+        for kind, ns in sizes.items():
+            files[kind], wfiles[kind] = [], []
+            for g, m_ in enumerate(ns):
+                psx = cards.events(card, m_, rng, classes=False)
+                fnx = os.path.join(wd, "lz_%s%d_%d.npy" % (kind, g, i))
+                np.save(fnx, np.stack(psx).transpose((1, 0, 2)))
+                wfn = os.path.join(wd, "lz_w_%s%d_%d.dat" % (kind, g, i))
+                np.savetxt(wfn, rng.uniform(0.3, 1.7, m_))
+                files[kind].append([fnx])
+                wfiles[kind].append([wfn])
+        base = {"dat_order": names, "data": files["data"], "bg": files["bg"], "data_weight": wfiles["data"], "bg_weight": wfiles["bg"]}
+        opts = dict(vopts)
+        if opts.get("cached_lazy_call") == "DISK":
+            opts["cached_lazy_call"] = os.path.join(wd, "lzcache_%d" % i) + "/"
+        desc = lambda: {"variant": vname, "options": vopts, "sizes": sizes, "config": card["config"]}
+        ctx.context = {"variant": vname}
+
+        def close(k_, a_, b_):
+            a_, b_ = np.asarray(a_), np.asarray(b_)
+            ks = str(k_)
+            if ks.endswith("aligned_angle/alpha") or ks.endswith("aligned_angle/gamma"):
+                return a_.shape == b_.shape
+            tol = 1e-6 if "ang" in ks else 1e-12
+            return a_.shape == b_.shape and np.allclose(a_, b_, rtol=tol, atol=tol)
+
+        def flat(d_):
+            return {str(k): np.asarray(v) for k, v in D.flatten_dict_data(D.data_to_numpy(d_)).items()}
+
+        def differs(want, got):
+            bad = [k for k in want if k not in got or not close(k, want[k], got[k])]
+            return bad
+
+        try:
+            with contextlib.redirect_stdout(io.StringIO()):
+                cfgd = __import__("copy").deepcopy(card["config"])
+                cfgd["data"] = dict(base)
+                eager_cfg = ConfigLoader(__import__("copy").deepcopy(cfgd))
+                e_data, e_bg = eager_cfg.get_data("data"), eager_cfg.get_data("bg")
+                cfgl = __import__("copy").deepcopy(card["config"])
+                cfgl["data"] = dict(base, **opts)
+                lazy_cfg = ConfigLoader(cfgl)
+                l_data, l_bg = lazy_cfg.get_data("data"), lazy_cfg.get_data("bg")
+            for g in range(2):
+                for kind, lz, eg in (("data", l_data[g], e_data[g]), ("bg", l_bg[g], e_bg[g])):
+                    n = sizes[kind][g]
+                    want = flat(eg)
+                    ctx.check("lazy == eager", isinstance(lz, D.LazyCall) and not differs(want, flat(lz.eval())),
+                              lambda: dict(desc(), sample=kind, group=g, differing=differs(want, flat(lz.eval()))[:3]), mechanism="lazy sample eval() vs eager (%s)" % vname)
+                    # batch-wise iteration, every batch size twice (the second pass takes the cached path), sizes interleaved
+                    for b in (3, n, 4, 3, n + 1):
+                        parts = [D.data_to_numpy(p_) for p_ in D.data_split(lz, b)]
+                        got = flat(D.data_merge(*parts)) if parts else {}
+                        okb = len(parts) == -(-n // b) and not differs(want, got)
+                        ctx.check("lazy batches == eager", okb, lambda: dict(desc(), sample=kind, group=g, batch=b, n=n, n_batches=len(parts), differing=differs(want, got)[:3],
+                                                                             got_len={k: v.shape[0] for k, v in list(got.items())[:3]}),
+                                  mechanism="lazy sample iterated in batches vs eager (%s)" % vname)
+                # merging lazy samples (data + bg, as the likelihood does): content and batch-wise iteration of the merged sample,
+                # with the operands iterated before or after it
+                first_merged = (rnd + g) % 2 == 0
+                want_m = flat(D.data_merge(e_data[g], e_bg[g]))
+                n_m = sizes["data"][g] + sizes["bg"][g]
+
+                def check_merged():
+                    mg = D.data_merge(l_data[g], l_bg[g])
+                    bad_e = differs(want_m, flat(mg.eval()))
+                    parts = [D.data_to_numpy(p_) for p_ in D.data_split(mg, 4)]
+                    lens = sorted({int(np.asarray(v).shape[0]) for p_ in parts for v in D.flatten_dict_data(p_).values()}) if parts else []
+                    try:
+                        got = flat(D.data_merge(*parts))
+                        bad_b = differs(want_m, got)
+                    except Exception as e_:
+                        bad_b = ["merge of the batches raises: " + repr(e_)[:120]]
+                    ctx.check("lazy batches == eager", not bad_e and not bad_b and len(parts) == -(-n_m // 4),
+                              lambda: dict(desc(), group=g, merged_first=first_merged, n=n_m, n_batches=len(parts), leaf_lengths_in_batches=lens, eval_differs=bad_e[:3], batches_differ=bad_b[:3]),
+                              mechanism="merged lazy samples (data+bg) vs eager merge (%s)" % vname)
+
+                def check_operand():
+                    parts = [D.data_to_numpy(p_) for p_ in D.data_split(l_data[g], 4)]
+                    got = flat(D.data_merge(*parts))
+                    bad = differs(flat(e_data[g]), got)
+                    ctx.check("lazy batches == eager", not bad, lambda: dict(desc(), group=g, merged_first=first_merged, differing=bad[:3]),
+                              mechanism="lazy operand iterated %s the merged sample vs eager (%s)" % ("after" if first_merged else "before", vname))
+
+                for step in ((check_merged, check_operand) if first_merged else (check_operand, check_merged)):
+                    step()
+            ctx.case(("lazy", vname, rnd), nontrivial=True)
+            ctx.covered("lazy_variant", vname)
+        except Exception as e:
+            ctx.violation("lazy == eager", ctx.exc_witness(e, **desc()), mechanism="lazy sample raises (%s)" % vname)
+        # a bare LazyFile (memory-mapped input without a preprocessor) split twice with the same batch size
+        try:
+            n = int(rng.integers(5, 12))
+            raw = {"a": rng.normal(size=(n, 2)), "b": {"c": rng.normal(size=n)}}
+            lf = D.LazyFile(raw)
+            lf["w"] = np.arange(n, dtype=float)
+            want = {"a": raw["a"], "b/c": raw["b"]["c"], "w": np.arange(n, dtype=float)}
+            for rep in range(2):
+                parts = [D.data_to_numpy(p_) for p_ in D.data_split(lf, 4)]
+                got = flat(D.data_merge(*parts))
+                okf = set(got) == set(want) and all(np.array_equal(got[k], want[k]) for k in want)
+                ctx.check("lazy batches == eager", okf, lambda: {"n": n, "pass": rep + 1, "leaves_returned": sorted(got), "leaves_expected": sorted(want)},
+                          mechanism="LazyFile split in batches (pass %d)" % (rep + 1))
+        except Exception as e:
+            ctx.violation("lazy batches == eager", ctx.exc_witness(e), mechanism="LazyFile split raises")
